@@ -105,7 +105,7 @@ type Delivery struct {
 	Perm int64 `json:"perm,omitempty"`
 	// NoYAML: no config parameter at all (everything that can must be in CLI).
 	NoYAML bool `json:"no_yaml,omitempty"`
-	// YAMLFault: "" | "missing" (file does not exist) | "malformed"
+	// YAMLFault: "" | "missing" (file does not exist) | "malformed" | "mistyped" (YAML of the wrong shape) | "directory"
 	YAMLFault string `json:"yaml_fault,omitempty"`
 	// SortSpelling is the spelling of the sort parameter when delivered by CLI ("true", "TRUE", "1", "T", ...).
 	SortSpelling string `json:"sort_spelling,omitempty"`
@@ -559,7 +559,12 @@ func (p *Program) ModelInput() *Sx {
 	case p.Delivery.NoYAML:
 		y = A("absent")
 	case p.Delivery.YAMLFault != "":
-		y = A(p.Delivery.YAMLFault)
+		// the model knows two kinds of unusable file: one that cannot be read and one that cannot be decoded
+		fault := map[string]string{"mistyped": "malformed", "directory": "missing"}[p.Delivery.YAMLFault]
+		if fault == "" {
+			fault = p.Delivery.YAMLFault
+		}
+		y = A(fault)
 		ps.Add(L(Q("config"), Q("config.yaml")))
 	default:
 		y = doc.Sx()
